@@ -304,3 +304,89 @@ fn c13_piece_letters() {
         k += 1;
     }
 }
+
+// -------------------------------------------------------------------------------------------------
+// C13.wire: the enumerating entry point labels EVERY move of the generated list exactly once.
+// generate_moves_and_lazily_update_chess_move_effects -> three marker moves, two of which share origin and
+// destination (a pawn step promoting to Q / N: the case a keyed collection would merge);
+// chess_move_to_algebraic_notation -> recorder returning an empty String (its contract: c13_dis_*, c13_sel,
+// c13_parts, mir::san_assembly). What is asserted: one (move, label) pair per listed move, each marker exactly once.
+pub mod c13w {
+    use super::*;
+    pub static mut LABEL_CALLS: u8 = 0;
+    pub static mut LIST_OK: bool = true;
+    pub static mut GEN_CALLS: u8 = 0;
+    pub static mut GEN_WHITE: bool = false;
+    pub fn marker(i: u8) -> ChessMove {
+        match i {
+            0 => ChessMove::PawnPromotion(PawnPromotionChessMove::new(Bitboard(rf::bit(50)), Bitboard(rf::bit(58)), None, Piece::Queen)),
+            1 => ChessMove::Standard(StandardChessMove::new(Bitboard(rf::bit(0)), Bitboard(rf::bit(8)), None)),
+            _ => ChessMove::PawnPromotion(PawnPromotionChessMove::new(Bitboard(rf::bit(50)), Bitboard(rf::bit(58)), None, Piece::Knight)),
+        }
+    }
+    impl crate::move_generator::MoveGenerator {
+        pub fn c13w_generate(&mut self, _board: &mut Board, player: Color) -> ChessMoveList {
+            unsafe {
+                GEN_CALLS += 1;
+                GEN_WHITE = player == Color::White;
+            }
+            let mut l = ChessMoveList::new();
+            l.push(marker(0));
+            l.push(marker(1));
+            l.push(marker(2));
+            l
+        }
+    }
+    pub fn label(_chess_move: &ChessMove, _board: &mut Board, candidate_moves: &ChessMoveList) -> Result<String, String> {
+        unsafe {
+            LABEL_CALLS += 1;
+            if candidate_moves.len() != 3 {
+                LIST_OK = false;
+            }
+        }
+        Ok(String::new())
+    }
+}
+
+#[kani::proof]
+#[kani::unwind(8)]
+#[kani::stub(::smallvec::SmallVec::reserve_one_unchecked, crate::move_generator::verif_no_spill)]
+#[kani::stub(::smallvec::SmallVec::spilled, crate::move_generator::verif_never_spilled)]
+#[kani::stub(::smallvec::SmallVec::try_grow, crate::move_generator::verif_no_grow)]
+#[kani::stub(crate::move_generator::MoveGenerator::generate_moves_and_lazily_update_chess_move_effects, crate::move_generator::MoveGenerator::c13w_generate)]
+#[kani::stub(crate::chess_move::algebraic_notation::chess_move_to_algebraic_notation, crate::chess_move::algebraic_notation::kani_verif::c13w::label)]
+fn c13_wire_enumerate() {
+    let x = any_disjoint();
+    let a = any_aux(crate::verif_ref::vany());
+    let mut board = Board::verif_from_raw(&x, &a);
+    let white: bool = crate::verif_ref::vany();
+    let mut mg = MoveGenerator::verif_blank();
+    unsafe {
+        c13w::LABEL_CALLS = 0;
+        c13w::LIST_OK = true;
+        c13w::GEN_CALLS = 0;
+    }
+    let out = enumerate_candidate_moves_with_algebraic_notation(&mut board, if white { Color::White } else { Color::Black }, &mut mg);
+    unsafe {
+        assert!(c13w::GEN_CALLS == 1 && c13w::GEN_WHITE == white, "the annotated move list is requested once, for the colour asked about");
+        assert!(c13w::LIST_OK, "every label is computed against the whole candidate list");
+    }
+    assert!(out.len() == 3, "one (move, label) pair per legal move");
+    let mut m = 0u8;
+    while m < 3 {
+        let want = c13w::marker(m);
+        let mut n = 0;
+        let mut i = 0;
+        while i < out.len() && i < 3 {
+            if out[i].0 == want {
+                n += 1;
+            }
+            i += 1;
+        }
+        assert!(n == 1, "each listed move appears exactly once among the labelled moves (promotions to different pieces are different moves)");
+        m += 1;
+    }
+    core::mem::forget(out);
+    core::mem::forget(mg);
+    core::mem::forget(board);
+}
